@@ -273,7 +273,11 @@ def default_configs(tier):
         return [C.Config(m) for m in C.quick_macro_sets(os.path.join(INC, "avel"))] + [
             C.Config(list(C.EVERYTHING), cxx="clang++", std="c++20", opt="-O2"),
             C.Config(["SSE4_2"], cxx="g++", std="c++20", opt="-O2"),
-            C.Config(["AVX2"], cxx="clang++", std="c++14", opt="-O1")]
+            C.Config(["AVX2"], cxx="clang++", std="c++14", opt="-O1"),
+            # -O0: intrinsics map to instructions literally and _mm_undefined_*() really reads an uninitialised stack slot (the driver poisons the stack)
+            C.Config(["SSE2"], opt="-O0"), C.Config(["AVX2", "FMA"], opt="-O0"),
+            # what most users build: AVEL_AUTO_DETECT with -march=native (every extension of this CPU, detected from the compiler's macros)
+            C.Config([], cxx="g++", std="c++17", opt="-O2", extra=("-DAVEL_AUTO_DETECT", "-march=native"))]
     out = [C.Config(m) for m in C.lattice_macro_sets()]
     wide = [[], ["SSE2"], ["SSE4_1"], ["AVX2"], ["AVX512VL", "AVX512BW", "AVX512DQ", "AVX512CD"], list(C.EVERYTHING)]
     for m in wide:
@@ -299,6 +303,13 @@ def run_one(prop, cfg, tier, regress_path, known, outdir, mode=None, shard=None)
     scale = prop.get("scale", {}).get(tier, 100)
     cmd = [exe, "--mode", mode or prop.get("mode", "all"), "--config", cfg.name, "--seed", str(SEED), "--tier", "0" if tier == "quick" else "1",
            "--scale", str(scale), "--out", out]
+    if cfg.opt == "-O0" and tier == "quick" and not prop.get("full_O0"):
+        # unoptimised builds are 3-6x slower: they run the deterministic phase thinned (every 6th Case, phase chosen by the seed), no strided sweep and a third of the random cases
+        cmd[cmd.index("--mode") + 1] = "enumrc"
+        cmd[cmd.index("--scale") + 1] = str(max(10, scale // 3))
+        cmd += ["--enum-stride", "6"]
+    if cfg.opt == "-O0":
+        cmd += ["--poison-every", "1"]
     if shard:
         cmd += ["--shard", "%d/%d" % shard]
     if mode == "sweep":
